@@ -30,7 +30,8 @@ SHARD_TIMEOUT = {"quick": 300, "thorough": 3000}
 
 def plan(tier, seed):
     n = 12 if tier == "quick" else 48
-    return [{"kind": "errors", "n": 500 if tier == "quick" else 3200} for _ in range(n)] + [{"kind": "cli"}]
+    return ([{"kind": "errors", "n": 500 if tier == "quick" else 3200} for _ in range(n)] + [{"kind": "cli"}]
+            + [{"kind": "callbacks", "legacy": lg} for lg in (True, False)])
 
 
 def finally_exactly_once(rlog):
@@ -72,9 +73,82 @@ def blocks_with_finally(prog, out=None):
     return out
 
 
+# library functions that call back into the program: {F} is the callback's body
+CALLBACK_FORMS = [
+    ("sorted-cmp", "sorted([2, 1, 3], cmp = fn(a, b) {F})"), ("sorted-key", "sorted([2, 1, 3], key = fn(a) {F})"),
+    ("map_list", "map_list([1, 2], fn(x) {F})"), ("filter", "filter([1, 2], fn(x) {F})"), ("reduce", "reduce([1, 2, 3], fn(a, b) {F})"),
+    ("for_each", "for_each([1, 2], fn(x) {F})"), ("grouped", "grouped([1, 2], fn(x) {F})"), ("find-key", "find([[1], [2]], 2, key = fn(x) {F})"),
+    ("find_last-key", "find_last([[1], [2]], 2, key = fn(x) {F})"), ("apply", "apply(fn(x) {F}, [1])"), ("curry", "curry(fn(a, b) {F}, 1)(2)"),
+    ("min-key", "min([2, 1], key = fn(x) {F})"), ("max-key", "max([2, 1], key = fn(x) {F})"), ("any", "any([1, 2], fn(x) {F})"),
+    ("all", "all([1, 2], fn(x) {F})"), ("grep-key", "grep(['a'], //a//, key = fn(x) {F})"), ("pipe", "[1, 2] !> map_list(fn(x) {F})"),
+    ("interpolation", "def cb() {F}; s('<{cb()}>')"), ("sprintf", "def cb() {F}; sprintf('{0}', cb())"), ("eval", "def cb() {F}; eval('cb()')"),
+    ("unique-key", "unique([1, 2], fn(x) {F})"), ("sum-key", "sum([1, 2], fn(x) {F})"), ("compose", "compose(fn(x) {F}, fn(x) x)(1)"),
+    ("method", "def o = <*m = fn(self) {F}*>; o->m()"), ("default-arg", "def f(a = {F}) a; f()"), ("comprehension", "[{F} for x in [1, 2]]"),
+    ("set-comprehension", "<<{F} for x in [1, 2]>>"), ("map-comprehension", "<<<x => {F} for x in [1, 2]>>>"), ("spread-arg", "identity(...[{F}])"),
+    ("nested-sorted", "sorted([[2], [1]], key = fn(l) sorted(l, cmp = fn(a, b) {F}))"), ("nested-sorted2", "sorted([[2, 3], [1, 4]], key = fn(l) sorted(l, cmp = fn(a, b) {F}))"),
+]
+CALLBACK_ERRVALS = ["'E1'", "'ERROR'", "12", "1.5", "[1, 'a']", "<<1>>", "<<<'k' => 1>>>", "TRUE", "NULL", "date('20200101')", "//a//", "''"]
+
+
+def run_callbacks(spec, ctx):
+    """an error raised inside a function that a library function (or an evaluation form) calls back is the program's
+    error: it reaches the nearest handler whose value equals it, passes handlers for other values, and leaves the
+    interpreter with its own value when nothing matches"""
+    import ckl.functions
+    legacy = spec["legacy"]
+    it, out = core.new_interpreter(secure=True, legacy=legacy)
+    pre = "" if legacy else "require List unqualified; require String unqualified; require Core unqualified; "
+
+    def ev(src):
+        env = ckl.functions.Environment()
+        return core.observe(lambda: it.interpret(pre + src, "c05cb", env), 2000000)
+    usable = []
+    for name, form in CALLBACK_FORMS:
+        # a form counts only if, with a harmless body, it evaluates and the body really ran
+        ok_ = False
+        for harmless in ("1", "TRUE"):
+            o = ev("def hits = []; %s; length(hits)" % form.replace("{F}", "do append(hits, 1); %s end" % harmless))
+            if o.kind == "value" and core.safe_str(o.value) not in ("0", "NULL"):
+                ok_ = True
+        if ok_:
+            usable.append((name, form))
+        else:
+            ctx.count("callback_forms_not_available")
+            ctx.note("callback form not usable (%s): %s" % ("legacy" if legacy else "non-legacy", name))
+    ctx.extras["callback_forms_usable"] = len(usable)
+    for name, form in usable:
+        for vi, v in enumerate(CALLBACK_ERRVALS):
+            other = CALLBACK_ERRVALS[(vi + 1) % len(CALLBACK_ERRVALS)]
+            f = form.replace("{F}", "error %s" % v)
+            cases = [("matching-catch", "do %s catch %s 'handled' end" % (f, v), ("value", "'handled'")),
+                     ("passes-other-catch", "do do %s catch %s 'wrong' end catch %s 'outer' end" % (f, other, v), ("value", "'outer'")),
+                     ("finally-once", "def n = 0; do do %s finally n += 1 end catch %s n end" % (f, v), ("value", "1")),
+                     ("uncaught", f, ("error", None))]
+            for tag, src, want in cases:
+                o = ev(src)
+                ctx.count("callback_error_programs")
+                ctx.case(("callback", legacy, name, v, tag), nontrivial=True)
+                if want[0] == "value":
+                    ok = o.kind == "value" and core.safe_str(o.value, 60) == want[1]
+                else:
+                    ok = o.kind == "rte"
+                    if ok:
+                        # the error value that left the interpreter equals v
+                        env = ckl.functions.Environment()
+                        env.put("escaped", o.exc.value)
+                        o2 = core.observe(lambda: it.interpret("escaped == (%s)" % v, "c05cb", env), 200000)
+                        ok = o2.kind == "value" and core.safe_str(o2.value) == "TRUE"
+                if not ok:
+                    ctx.violation("C05:callback-error:%s:%s" % (name, tag),
+                                  "%s -> %s %s (expected %s)" % (src, o.kind, core.safe_str(o.value if o.kind == "value" else getattr(o.exc, "value", o.exc), 100),
+                                                                want[1] or "an error carrying " + v), {"src": src})
+
+
 def run_shard(spec, ctx):
     if spec["kind"] == "cli":
         return run_cli(ctx)
+    if spec["kind"] == "callbacks":
+        return run_callbacks(spec, ctx)
     R = differ.RealRunner(secure=True, legacy=True)
     r = ctx.rng
     for _ in range(spec["n"]):
@@ -119,7 +193,7 @@ def finalize(merged, tier):
     reasons = []
     if c.get("harness_syntax_errors", 0):
         reasons.append("%d generated programs did not parse (harness defect)" % c["harness_syntax_errors"])
-    for k in ("differential_comparisons", "finally_log_checks", "block_activations", "cli_runs"):
+    for k in ("differential_comparisons", "finally_log_checks", "block_activations", "cli_runs", "callback_error_programs"):
         if c.get(k, 0) == 0:
             reasons.append("monitor counter %s is zero" % k)
     disc = {m: c.get("discriminates_" + m, 0) for m in MODES}
